@@ -1,4 +1,4 @@
-/- Shape of what the filter parsers (`Filter.parse`, `Filter.parseMatchedValues`) put out, for EVERY
+/- Shape of what the filter parsers (`Filter.parseCore`, `Filter.parseMatchedValues`) put out, for EVERY
 accepted string: tag classes / numbers (`lowTags`, the root is a context tag 0..9, the matched-values
 items are SimpleFilterItems), total encoded size against the length of the string (hence `WF`), and
 the depth of the tree against the parenthesis nesting of the string.
@@ -338,7 +338,7 @@ theorem depth_GLib {f : Filter} {s : Bytes} (h : GLib f s) :
 /-! ## the entry point `parse` -/
 
 /-- everything about the shape of an accepted filter, from soundness -/
-theorem parse_shape {s : Bytes} {t : Tag} (h : parse s = some t) :
+theorem parse_shape {s : Bytes} {t : Tag} (h : parseCore s = some t) :
     lowTags t.toTlv = true ∧ (t.toTlv.cls = 2 ∧ t.toTlv.id ≤ 9) ∧
     t.toTlv.depth ≤ nest 0 s + 2 ∧ nest 0 s ≤ t.toTlv.depth + 1 ∧
     (s.head? = some 0x28 → t.toTlv.depth ≤ nest 0 s + 1) ∧
@@ -349,7 +349,7 @@ theorem parse_shape {s : Bytes} {t : Tag} (h : parse s = some t) :
   exact ⟨low_toTlv f, root_toTlv f, hd.1, hd.2.1, hd.2.2, sz_GLib hg⟩
 
 /-- under the size bound the tree is one the writer can represent (`WF`) -/
-theorem parse_wf {s : Bytes} {t : Tag} (h : parse s = some t) (hl : s.length < 288230376151711744) :
+theorem parse_wf {s : Bytes} {t : Tag} (h : parseCore s = some t) (hl : s.length < 288230376151711744) :
     WF t.toTlv ∧ (encode t.toTlv).length ≤ 32 * s.length + 51 := by
   obtain ⟨hlow, _, _, _, _, hsz⟩ := parse_shape h
   have hs : sz t.toTlv < 18446744073709551616 := by omega
@@ -492,7 +492,7 @@ theorem length_notStr (n : Nat) (s : Bytes) : (notStr n s).length = 3 * n + s.le
   | succ n ih => simp [notStr, ih]; omega
 
 /-- `(a=b)` under `n` negations is accepted, for every `n`, and the tree is `n + 1` levels deep -/
-theorem parse_notN (n : Nat) : ∃ t, parse (notStr n [0x28, 0x61, 0x3D, 0x62, 0x29]) = some t ∧
+theorem parse_notN (n : Nat) : ∃ t, parseCore (notStr n [0x28, 0x61, 0x3D, 0x62, 0x29]) = some t ∧
     t.toTlv = toTlv (notN n (.eq [0x61] [0x62])) ∧ t.toTlv.depth = n + 1 := by
   obtain ⟨t, hp, ht⟩ := parse_complete (Or.inl (G_notN n G_aEqB))
   refine ⟨t, (parse_some_iff _ t).mpr hp, ht, ?_⟩
@@ -501,7 +501,7 @@ theorem parse_notN (n : Nat) : ∃ t, parse (notStr n [0x28, 0x61, 0x3D, 0x62, 0
 
 /-- an accepted filter whose string nests deeper than `maxDepth + 1` has a BER encoding, which the
 writer produces, and lber's parser refuses it -/
-theorem deep_not_read_back {s : Bytes} {t : Tag} (h : parse s = some t) (hn : maxDepth + 1 < nest 0 s)
+theorem deep_not_read_back {s : Bytes} {t : Tag} (h : parseCore s = some t) (hn : maxDepth + 1 < nest 0 s)
     (hl : s.length < 288230376151711744) (rest : Bytes)
     (hr : (encode t.toTlv ++ rest).length < 18446744073709551616) :
     Ldap3V.Spec.Enc t.toTlv (encode t.toTlv) ∧ parseTag (encode t.toTlv ++ rest) = .error := by
